@@ -1,4 +1,4 @@
-CONSTANTS Req = {"r1", "r2", "r3"} Backend = {"b1", "b2"} SharedResponseKey = TRUE ShortRetention = FALSE
+CONSTANTS Req = {"r1", "r2", "r3"} Backend = {"b1", "b2"} SharedResponseKey = TRUE ShortRetention = FALSE ResponseStartTimeUnset = FALSE
 CONSTANT BackendOf <- MCBackendOf
 SPECIFICATION Spec
 CHECK_DEADLOCK FALSE
